@@ -276,6 +276,20 @@ def short_fn(vname):
     return vname.split('::', 1)[1] if '::' in vname else vname
 
 
+_CONST_ITEM = re.compile(r'^\s*(?:#\[[^\]]*\]\s*)*(?:pub(?:\([^)]*\))?\s+)?(?:const|static)\s+(?:mut\s+)?[A-Za-z_][A-Za-z_0-9]*\s*:')
+
+
+def _in_const_item(model, line):
+    """is `line` inside the statement of a `const NAME: T = ...;` / `static NAME: T = ...;` item (not a `const fn`)?"""
+    k = line
+    while k > 1 and k > line - 30:
+        prev = model.src_of(k - 1)
+        if prev.endswith(';') or prev.endswith('}') or prev.endswith('{') or prev == '' or prev.startswith('//') or (prev.startswith('#[') and prev.endswith(']')):
+            break
+        k -= 1
+    return bool(_CONST_ITEM.match(model.src_of(k)))
+
+
 def map_diag(model, d, fname):
     """-> dict(fn, label, kind, message, site, clause) or None for non-errors"""
     if d.get('level') != 'error':
@@ -314,6 +328,11 @@ def map_diag(model, d, fname):
         res.update(fn=None, label='unmapped', site='', clause='')
         return res
     bline = body[0]['line_start']
+    if res['kind'] == 'overflow' and _in_const_item(model, bline):
+        # arithmetic in the initialiser of a `const` / `static` item: rustc evaluates it at compile time and overflow there is a
+        # compile error, so the crate that compiled cannot overflow here.  Not an obligation of any function (mapping it to the
+        # function that happens to precede the item raised C10/C15 for a new `const M: u64 = (1 << 32) - 1;`, seed C16-11).
+        return None
     res['fn'] = model.fn_at(bline)
     res['site_line'] = bline
     res['site'] = model.src_of(bline)
@@ -1000,6 +1019,7 @@ ASSUMPTIONS_COMMON = [
     'ASSUME-ADDR: payload.len() + message.len() + 128 <= usize::MAX for the two buffers of one call',
     'Machine arithmetic is modelled exactly (every usize/u64 operation carries an overflow obligation); usize width left open (32 or 64 bit)',
     'Features: default + std; hfs, risky-raw-split, nightly and no_std builds are not verified',
+    'Arithmetic in the initialisers of const/static items is left to rustc (compile-time evaluation rejects overflow); a Verus overflow diagnostic there is not counted as an obligation',
 ]
 PROP_ASSUMPTIONS = {
     'C13': ["Parser unit: the std contracts stated in spec/parser/00_strings.rs are ASSUMED (str::parse = FromStr::from_str; s[a..b] returns the byte sub-range; "
